@@ -192,6 +192,9 @@ class SqlalchemyRender:
                 sa_op = getattr(arg0, method)
 
                 col = sa_op(arg1)
+                if op in ('is', 'is not') and getattr(col, 'negate', None) is getattr(col, 'operator', None):
+                    # sqlalchemy builds "x IS <literal>" as its own negation, so NOT (x IS NULL) lost its NOT
+                    col.negate = sa.sql.operators.is_not if op == 'is' else sa.sql.operators.is_
             elif t.op.lower() in functions:
                 func = functions[t.op.lower()]
                 col = func(arg0, arg1)
